@@ -2,3 +2,4 @@
   C02 — layered parameters deep-merge.  Umbrella module for the C02 theorem files.
 -/
 import Reclass.Props.C02a
+import Reclass.Props.C02b
